@@ -178,8 +178,12 @@ def _judge_rec(case: dict, kind: str, rec: dict) -> list:
     mname = 'model=None' if ms is None else f'{ms["n"]}-qudit model'
     ex = rec['exec']
     if not ex['shape_ok']:
+        # circuits: the level decides (only level 4 lacks the final
+        # ApplyPlacement); targets: no synthesis workflow places its output
+        base = kind.replace('list-', '').split('-radix')[0]
+        where = f'{base}:{lvl}' if base == 'circuit' else base
         out.append(F(
-            f'wrong-width-or-radixes:{kind}:{lvl}',
+            f'wrong-width-or-radixes:{where}',
             f'output has width {rec["width"]} radixes {rec["radixes"]} for a '
             f'{mname}',
         ))
@@ -189,6 +193,10 @@ def _judge_rec(case: dict, kind: str, rec: dict) -> list:
                 n in ('T', 'U3Gate', 'H', 'RZ', 'RX', 'RY', 'SX')
                 for n in ex['bad_gates']):
             names = 'single-qudit-gates-left'
+        elif kind.replace('list-', '') in ('state', 'system') and all(
+                n in ('RX', 'RY', 'RZ') for n in ex['bad_gates']):
+            # whichever of the layer generator's rotations survive the scan
+            names = 'RX/RY/RZ-from-layer-generator'
         out.append(F(
             f'non-native-gates:{kind.replace("list-", "")}:{names}:{sq}',
             f'output contains {ex["bad_gates"]} (all gates: '
